@@ -586,7 +586,17 @@ def keycodesInCoords (states : List St) (coords : List Coord) : List KeyCode :=
     | _ => none
 
 /-- the action `rpt_multikey_key_buffer.get_ref()` yields -/
-def rptBuffer (kcs : List KeyCode) : Action := .multipleKeyCodes (kcs.take BUFCAP)
+def rptBuffer (kcs : List KeyCode) : Action := .bufKeyCodes (kcs.take BUFCAP)
+
+/-- Rebuilding the repeat buffer while the action being performed IS the buffer (`rpt-any` repeating a
+one-shot-modified key while a one-shot is active): the Rust code clears the buffer, pushes the
+one-shot keys `p`, then pushes `for &keycode in *v` — but `v` aliases the buffer it is writing, so
+from position `|p|` on it reads what it has just written: the result is `p` repeated periodically,
+`|p| + |old|` long (capacity 20). With no one-shot key (`p = []`) the old content is re-read intact. -/
+def aliasRebuild (p old : List KeyCode) : List KeyCode :=
+  let p := p.take BUFCAP
+  if p.isEmpty then old.take BUFCAP
+  else (List.range (min (p.length + old.length) BUFCAP)).map fun j => p[j % p.length]!
 
 def switchEnv (s : Layout) (order : List Nat) : Switch.Env :=
   { activeKeys := s.states.filterMap St.keycode, activeCoords := s.states.filterMap St.coord,
@@ -667,6 +677,14 @@ def armMultipleKeyCodes (s : Layout) (action : Action) (kcs : List KeyCode) (coo
   let (s, oc) := oshOther s isOneshot coord
   if oc.isEmpty then { s with rptAction := some action }
   else { s with rptAction := some (rptBuffer (keycodesInCoords s.states oc ++ kcs)) }
+
+/-- the `MultipleKeyCodes` arm when the slice is the repeat buffer itself -/
+def armBufKeyCodes (s : Layout) (action : Action) (kcs : List KeyCode) (coord : Coord) (isOneshot : Bool) : Layout :=
+  let s := updateCoord s coord
+  let s := pushKeyCodes s kcs coord (if isOneshot then 0 else NORMAL_KEY_FLAG_CLEAR_ON_NEXT_ACTION)
+  let (s, oc) := oshOther s isOneshot coord
+  if oc.isEmpty then { s with rptAction := some action }
+  else { s with rptAction := some (.bufKeyCodes (aliasRebuild (keycodesInCoords s.states oc) kcs)) }
 
 def armLayer (s : Layout) (value : Nat) (coord : Coord) (isOneshot : Bool) : Layout :=
   let s := updateCoord s coord
@@ -830,6 +848,7 @@ mutual
         .ok (armWait s coord delay timeout (.chord ⟨coords, chs, timeout⟩) layerStack, .noEvent)
       | .keyCode kc => .ok (armKeyCode s action kc coord isOneshot, .noEvent)
       | .multipleKeyCodes kcs => .ok (armMultipleKeyCodes s action kcs coord isOneshot, .noEvent)
+      | .bufKeyCodes kcs => .ok (armBufKeyCodes s action kcs coord isOneshot, .noEvent)
       | .multipleActions acs =>
         let s := updateCoord s coord
         match doActions fuel s acs coord delay isOneshot layerStack .noEvent with
